@@ -18,6 +18,7 @@ Binding demonstrated during development (scratch worktree, see notes/sync.md): d
 removing the `fut.cancel()` clean-up in Event.wait, making Event.set skip when already set ... each
 reported as VIOLATION by the part named in the notes.
 """
+import os
 import random
 import zlib
 
@@ -36,19 +37,42 @@ def _differs(exp, obs):
     return sorted(k for k in set(exp) | set(obs) if exp.get(k) != obs.get(k))
 
 
+def _needs_settle(s):
+    return s["act"] in ("wait", "ev_wait") and s["args"][1] == 0
+
+
+# placements of loop iterations tried for every behaviour besides "settle after every call":
+# (fuse predicate on the step index, iterations between the timers of an advance and the follow-up calls)
+def _placements(h):
+    return [(lambda i: True, 0), (lambda i: True, 1), (lambda i: (h >> (i % 16)) & 1 == 1, 2)]
+
+
 def replayer(extra, path, nw=NW_GEN):
     cfg = extra["cfg"]
-    real = CondEventReal(cfg, nw, style=_style(path))
+    h = zlib.crc32(framework.jdump([[s["act"], s["args"]] for s in path]).encode())
+    real = CondEventReal(cfg, nw, style=h & 1)
     try:
         for i, s in enumerate(path):
             obs = canon(real.step(s["act"], s["args"]))
             if obs != s["exp"]:
                 return {"step": i, "act": s["act"], "args": s["args"], "exp": s["exp"], "obs": obs,
                         "sig": {"act": s["act"], "kind_": cfg["kind"], "differs": _differs(s["exp"], obs),
-                                "obs_err": obs.get("err", "none")}}
-        return None
+                                "obs_err": obs.get("err", "none"), "placement": "settled"}}
     finally:
         real.close()
+    if len(path) < 2:
+        return None
+    for n, (fuse, delay) in enumerate(_placements(h >> 1)):
+        real = CondEventReal(cfg, nw, style=(h + n + 1) & 1)
+        try:
+            d = sync_paths.fused_replay(real, path, _needs_settle, fuse, delay)
+        finally:
+            real.close()
+        if d is not None:
+            d["sig"] = {"act": d["act"], "kind_": cfg["kind"], "differs": _differs(d["exp"], d["obs"]),
+                        "obs_err": d["obs"].get("err", "none"), "placement": "fused%d" % n}
+            return d
+    return None
 
 
 def replayer_sim(extra, path):
@@ -85,7 +109,7 @@ def random_trace(args):
             a = rng.choice(ch)
             if a == "wait":
                 if profile == "timeouts":
-                    to = rng.choice([NOTO, 0, 1, 1, 2, 2, 3])
+                    to = rng.choice([NOTO, 0, 0, 1, 1, 2, 2])
                 else:
                     to = rng.choice([NOTO, NOTO, NOTO, 0, 1, 2, 3, 5])
                 args_ = [nxt, to]
@@ -113,23 +137,27 @@ def _trace_sig(t, bad, l):
 GEN_FAMILIES = [
     # (name, overrides, L quick, L thorough): every sequence over the family's alphabet up to L
     ("full", {"Timeouts": "{0, 1, 999}", "MaxAdvance": 2, "MaxNotify": 2}, 5, 6),
-    ("untimed", {"Timeouts": "{999}", "MaxAdvance": 1, "MaxNotify": 3}, 5, 7),
-    ("timed", {"Timeouts": "{1, 2}", "MaxAdvance": 2, "MaxNotify": 1}, 5, 6),
+    # at L = 5 the two sub-alphabets would be (nearly) subsets of `full`: thorough tier only (quick L = 0 = skipped)
+    ("untimed", {"Timeouts": "{999}", "MaxAdvance": 1, "MaxNotify": 3}, 0, 7),
+    ("timed", {"Timeouts": "{1, 2}", "MaxAdvance": 2, "MaxNotify": 1}, 0, 6),
 ]
 
 
 def c2s(ctx, n):
+    """1 run in 12 is a timeout-heavy Condition run (crosses the lazy clean-up of > 100 timed-out waiters with
+    live waiters queued; Event has no such threshold), the others alternate Condition / Event."""
     jobs = []
     for i in range(n):
-        kind = "cond" if i % 2 == 0 else "event"
-        profile = "timeouts" if i % 8 < 2 else "mixed"
-        length = ctx.pick(330, 400) if profile == "timeouts" else ctx.pick(120, 220)
-        nw = 260 if profile == "timeouts" else 90
-        jobs.append((i + 1, ctx.seed * 1000003 + i, nw, length, kind, profile))
-    for nw in (90, 260):
+        if i % 12 == 0:
+            jobs.append((i + 1, ctx.seed * 1000003 + i, 200, ctx.pick(270, 400), "cond", "timeouts"))
+        else:
+            jobs.append((i + 1, ctx.seed * 1000003 + i, 90, ctx.pick(120, 220), "cond" if i % 2 == 0 else "event", "mixed"))
+    workers = int(os.environ.get("VERIF_WORKERS", "16"))
+    for nw in (90, 200):
         part = framework.pool_map(random_trace, [j for j in jobs if j[2] == nw])
         if part:
             ctx.validate("sync", "Trace_CondEvent", "Trace_CondEvent.cfg", part, overrides={"NW": nw},
+                         shards=max(1, min(workers, len(part) // (24 if nw == 90 else 4))),
                          sig_fn=_trace_sig, label="c2s-nw%d" % nw, timeout=ctx.pick(900, 3000))
 
 
@@ -173,6 +201,8 @@ def run(ctx):
     rule = []
     for name, ov, lq, lt in GEN_FAMILIES:
         L = ctx.pick(lq, lt)
+        if not L:
+            continue
         o = dict(ov)
         o["L"] = L
         sync_paths.stream_replay(ctx, "Gen_CondEvent", "Gen_CondEvent.cfg", o, replayer, label="s2c-" + name,
@@ -182,12 +212,12 @@ def run(ctx):
     ctx.cov["exhaustive"] = True
     t0 = _timed(ctx, "s2c-enum", t0)
     # long seeded walks through larger constants
-    sync_paths.sim_replay(ctx, "Gen_CondEvent", "Gen_CondEvent.cfg", num=ctx.pick(600, 20000), depth=40,
-                          overrides={"L": 40, "NW": NW_SIM, "Timeouts": "{0, 1, 2, 3, 999}", "MaxAdvance": 3, "MaxNotify": 4},
+    sync_paths.sim_replay(ctx, "Gen_CondEvent", "Sim_CondEvent.cfg", num=ctx.pick(100, 2000), depth=ctx.pick(30, 40),
+                          overrides={"NW": NW_SIM, "Timeouts": "{0, 1, 2, 3, 999}", "MaxAdvance": 3, "MaxNotify": 4},
                           replayer=replayer_sim)
     t0 = _timed(ctx, "s2c-sim", t0)
     # 3. code -> spec: random recorded runs validated by TLC
-    c2s(ctx, ctx.pick(240, 4000))
+    c2s(ctx, ctx.pick(96, 4000))
     t0 = _timed(ctx, "c2s", t0)
     ctx.cov["rule"] = ("paths: " + "; ".join(rule) + "; per object kind (Condition, Event); plus seeded TLC simulation "
                        "walks (depth 40, 20 waiters) and random recorded runs; distinct = distinct (config, operation "
